@@ -601,6 +601,17 @@ def run(ctx):
             r.check(both, "%s/make_attr_recognizer/both-forms" % (b.defpath.split("for ")[-1].split(">::")[0] if " for " in b.defpath else ty), where(b),
                     "the attribute recogniser accepts the items as the attribute body or as a single record item (FirstOf + SimpleAttrBody)",
                     "the attribute recogniser only accepts the flattened form: the writers produce `@m({..})` for any number of entries but one, and the model always presents a record, so a field of this type promoted to an attribute cannot be read back")
+            # where a text is accepted in both forms (`@a({})` for a collection of collections: the empty collection in record form, or one empty
+            # element in the flattened form) the record form must win: the writers use it for fewer than two elements, and a single element that
+            # is itself empty is written `@a({{}})`
+            fo = [c for c in b.calls if c.name == "new" and "FirstOf" in c.defpath and len(c.args) == 2]
+            if both and fo:
+                first = describe_operand(b, fo[0].args[0])
+                r.check(first.startswith("new(") and any(c.name == "new" and "SimpleAttrBody" in c.defpath and c.dest is not None and b.copy_root(fo[0].args[0]) == c.dest[0] for c in b.calls),
+                        "%s/make_attr_recognizer/record-form-first" % (b.defpath.split("for ")[-1].split(">::")[0] if " for " in b.defpath else ty), fo[0].loc(),
+                        "on a text both forms accept the record form takes precedence (first argument of FirstOf is the SimpleAttrBody)",
+                        "the flattened form takes precedence over the record form: `@a({})` for a collection of collections is read as one empty element although the writers "
+                        "produce it for the empty collection - an empty Vec<Vec<T>> promoted to an attribute comes back as vec![vec![]] from its text and from its model value")
         if n < 2:
             raise AnchorMissing("expected the attribute recognisers of Vec and HashMap (found %d)" % n)
 
